@@ -135,7 +135,8 @@ impl EarlyMsg {
     pub fn new(kind: &str, variant: usize) -> EarlyMsg {
         let text: String = match kind {
             "100" => ["HTTP/1.1 100 Continue\r\n\r\n", "HTTP/1.1 100 \r\n\r\n", "HTTP/1.1 100 Please Go On With The Body Now\r\n\r\n", "HTTP/1.0 100 Continue\r\n\r\n"][variant % 4].into(),
-            "refuseBare" => ["HTTP/1.1 403 Forbidden\r\n\r\n", "HTTP/1.1 417 Expectation Failed\r\n\r\n", "HTTP/1.1 200 OK\r\n\r\n"][variant % 3].into(),
+            "refuseBare" => ["HTTP/1.1 403 Forbidden\r\n\r\n", "HTTP/1.1 417 Expectation Failed\r\n\r\n", "HTTP/1.1 200 OK\r\n\r\n",
+                             "HTTP/1.1 102 Processing\r\n\r\n", "HTTP/1.1 199 \r\n\r\n", "HTTP/1.1 101 Switching Protocols\r\n\r\n"][variant % 6].into(),
             "refuseFields" => ["HTTP/1.1 403 Forbidden\r\nX-A: b\r\nContent-Length: 0\r\n\r\n", "HTTP/1.1 413 Too Large\r\nContent-Length: 0\r\nX-B: c\r\n\r\n"][variant % 2].into(),
             _ => "HTTP/1.1 403 Forbidden\r\nConnection: close\r\nX-A: b\r\n\r\n".into(),
         };
@@ -340,8 +341,22 @@ impl Sim {
     }
 
     pub fn op_sr_write(&mut self, t: &mut Tracer, big: bool) {
-        let len = if big { 1 << 16 } else { self.rq.reqline_len() };
-        self.sr_write_len(t, len);
+        if !big {
+            let len = self.rq.reqline_len();
+            self.sr_write_len(t, len);
+            return;
+        }
+        // "a big buffer": the model's step completes the head; an implementation may need several calls
+        for _ in 0..400 {
+            self.sr_write_len(t, 1 << 16);
+            let done = match &self.fb {
+                FlowBox::SendRequest(f) => guarded(|| f.can_proceed()).unwrap_or(true),
+                _ => true,
+            };
+            if done {
+                break;
+            }
+        }
     }
 
     pub fn sr_write_len(&mut self, t: &mut Tracer, len: usize) -> Option<Vec<u8>> {
@@ -484,6 +499,36 @@ impl Sim {
                         self.took100 = true;
                     }
                     if kind == "final" && resp.is_some() {
+                        self.final_seen = true;
+                    }
+                    ev_call(t, "RecvResponse", "try_response", e);
+                }
+                (Some(Err(er)), Some(rd)) => {
+                    e["res"] = json!("err");
+                    e["n"] = json!(0);
+                    e["ready"] = json!(rd);
+                    e["err"] = json!(format!("{:?}", er));
+                    ev_call(t, "RecvResponse", "try_response", e);
+                }
+                _ => self.panic(t, "try_response"),
+            }
+        }
+    }
+
+    /// try_response with raw bytes of a given kind (used for truncated heads)
+    pub fn try_response_raw(&mut self, t: &mut Tracer, kind: &str, input: &[u8], status: u16) {
+        self.calls += 1;
+        if let FlowBox::RecvResponse(f) = &mut self.fb {
+            let r = guarded(|| f.try_response(input));
+            let ready = guarded(|| f.can_proceed());
+            let mut e = json!({"kind":kind,"mlen":0,"w":input.len(),
+                               "cell":{"method":self.rq.method,"status":status,"http10":false,"cl":"absent","clv":limbs(0),"te":"absent"},"connclose":false});
+            match (r, ready) {
+                (Some(Ok((n, resp))), Some(rd)) => {
+                    e["res"] = json!(if resp.is_some() { "some" } else { "none" });
+                    e["n"] = json!(n);
+                    e["ready"] = json!(rd);
+                    if resp.is_some() {
                         self.final_seen = true;
                     }
                     ev_call(t, "RecvResponse", "try_response", e);
